@@ -19,10 +19,12 @@ packed (packed=True / pack=N) declarations (judged against cffi's own field
 metadata, because the documentation does not promise gcc's packed bitfield
 layout).  Every store goes through one of the equivalent entry points
 (p.f = v, p[0].f = v, p[0] = {...}, ffi.new(T, {...}), ffi.new(T, [...])) on
-owned memory, on an element of an array or on memory from ffi.from_buffer().
+owned memory, on an element of an array or on memory from ffi.from_buffer(),
+and the struct types are created by an in-line cdef, by an out-of-line ABI
+module (emit_python_code) or by a compiled API module (set_source + compile).
 """
 import os
-from vlib import gen, cc, core
+from vlib import gen, cc, core, modbuild
 
 RULE = ("case = (integer type, width w in 1..8*sizeof, bit position) placement x Python int v "
         "(boundary lattice of the field range and of 64-bit limits, >64-bit magnitudes, in-range "
@@ -30,8 +32,9 @@ RULE = ("case = (integer type, width w in 1..8*sizeof, bit position) placement x
         "storage; placements = exhaustive basic family (same-type pad/tail between sentinels) + "
         "sampled contexts (short leading member, mixed-type neighbours incl. spill to the next "
         "unit, anonymous and :0 bitfields, union, anonymous struct/union, nested struct, last "
-        "member, flexible array, packed/pack=N); each store uses one of 5 entry points on one of "
-        "3 kinds of memory; distinct = distinct (placement,v); non-trivial = w>1 or position>0 or "
+        "member, flexible array, packed/pack=N); the declarations reach the backend through an "
+        "in-line cdef, an out-of-line ABI module or a compiled API module; each store uses one "
+        "of 5 entry points on one of 3 kinds of memory; distinct = distinct (placement,v); non-trivial = w>1 or position>0 or "
         "non-basic context (every case writes/reads through the real backend and is compared "
         "with gcc's accessors, packed ones with cffi's own field metadata)")
 ASSUMPTIONS = ["gcc's bitfield allocation and its get/set code are the C view of the storage",
@@ -50,6 +53,8 @@ PAD_TYPES = [t for t in gen.INT_TYPES if t[0] in (
     'signed char', 'unsigned char', 'short', 'unsigned short', 'int', 'unsigned int', 'long',
     'unsigned long long', 'uint16_t', 'int64_t', 'size_t')]
 
+POSITION_MECHS = ('layout', 'type-rejected', 'read-differs-from-c', 'c-read-differs',
+                  'outside-bits-changed')
 MODES = ['ptr', 'val', 'item', 'new-dict', 'new-list']
 SITES = ['own', 'arr', 'frombuf']
 
@@ -145,8 +150,13 @@ def context_placement(rng, kind, nrand):
         z = rng.random()
         if z < 0.4:
             body = S0 + '%s :%d; ' % (P, k) + f + tail + S1
-        elif z < 0.7:
+        elif z < 0.5:
             body = S0 + '%s pad:%d; %s :0; ' % (P, k, Q) + f + tail + S1
+        elif z < 0.6:
+            # ':0' where the position is already aligned for its type
+            body = S0 + '%s pad:%d; %s :0; ' % (P, pbits, P) + f + tail + S1
+        elif z < 0.7:
+            body = S0 + '%s :0; ' % Q + f + tail + S1
         else:
             body = S0 + '%s c; %s :%d; %s pad:%d; ' % (lead, P, k, Q, r) + f + tail + S1
         key = body
@@ -245,8 +255,6 @@ def generate(ctx):
     # sampled contexts (same oracle: gcc accessors)
     crng = ctx.rng('contexts')
     nctx = ctx.scale(45, 400)
-    if os.environ.get('C02_AUDIT_BASELINE'):   # AUDIT-TEMP
-        nctx = 0
     seen = set(s['key'] for s in structs)
     for kind in CONTEXT_KINDS:
         made = tries = 0
@@ -261,39 +269,120 @@ def generate(ctx):
     rng.shuffle(structs)
     per = 80
     cases = []
+    # compiled API modules get a stratified sample: every context kind + basic ones
+    napi = ctx.scale(1, 4)
+    for a in range(napi):
+        pick, cnt = [], {}
+        for s in structs:
+            kd = s['kind']
+            if cnt.get(kd, 0) < (4 if kd != 'basic' else 24):
+                cnt[kd] = cnt.get(kd, 0) + 1
+                pick.append(s)
+        ids = set(id(s) for s in pick)
+        structs = [s for s in structs if id(s) not in ids]
+        cases.append({'structs': pick, 'no': len(cases), 'cls': 'c', 'via': 'api',
+                      'seed': rng.getrandbits(32)})
     for i in range(0, len(structs), per):
-        cases.append({'structs': structs[i:i + per], 'no': len(cases), 'cls': 'c',
+        # how the struct types reach the backend: in-line cdef, an out-of-line ABI
+        # module (emit_python_code) or a compiled API module (both realized lazily
+        # from the _CFFI_OP_BITFIELD encoding)
+        via = 'inline'
+        if len(cases) % 4 == 1:
+            via = 'abi'
+        cases.append({'structs': structs[i:i + per], 'no': len(cases), 'cls': 'c', 'via': via,
                       'seed': rng.getrandbits(32)})
     # packed declarations: own cases (one cdef(packed=True) / cdef(pack=N) each)
-    for pack in (1, 2, 4):
-        if os.environ.get('C02_AUDIT_BASELINE'):   # AUDIT-TEMP
-            break
+    for pno, pack in enumerate((1, 1, 2, 4)):
         ps = []
         tries = 0
         while len(ps) < ctx.scale(40, 300) and tries < 10000:
             tries += 1
             s = context_placement(crng, 'packed', ctx.scale(2, 20))
-            s['key'] = 'pack%d|' % pack + s['key']
+            s['key'] = 'pack%d.%d|' % (pack, pno) + s['key']
             if s['key'] in seen:
                 continue
             seen.add(s['key'])
             ps.append(s)
         for i in range(0, len(ps), per):
-            cases.append({'structs': ps[i:i + per], 'no': len(cases), 'cls': 'packed',
-                          'pack': pack, 'seed': rng.getrandbits(32)})
+            # two runs over the same declarations: the child handles in part 'within' the
+            # fields whose storage unit (offset + sizeof(type), as cffi reports them) lies
+            # inside the struct and in part 'beyond' the others, so that sanitizer reports
+            # are attributed to the right class
+            sd = rng.getrandbits(32)
+            for part in ('within', 'beyond'):
+                cases.append({'structs': ps[i:i + per], 'no': len(cases), 'cls': 'packed',
+                              'via': 'abi' if pno == 1 else 'inline',  # out-of-line: pack 0/1
+                              'pack': pack, 'part': part, 'seed': sd})
     # build one accessor .so per case with gcc
     import concurrent.futures as cf
 
     def build(case):
-        if case['cls'] == 'c':
-            case['so'] = cc.build_so(ctx.tmp, c_source(case), 'c02_%d.so' % case['no'])
+        _build_case(ctx, case, 'c02_%d' % case['no'])
     with cf.ThreadPoolExecutor(16) as ex:
         list(ex.map(build, cases))
     return None, cases
 
 
+def _build_case(ctx, case, name):
+    if case['cls'] != 'c':
+        return
+    if case.get('via') == 'api':
+        d = os.path.join(ctx.tmp, 'api_' + name)
+        spec = {'name': '_%s_api' % name, 'kind': 'api', 'cdef': cdef_text(case),
+                'source': cc.PRELUDE + c_source(case), 'dir': d}
+        res = modbuild.build_modules(ctx, [spec], cflags='-O0 -w')[spec['name']]
+        if not res['ok']:
+            raise core.Inconclusive('API module build failed: ' + res['error'][-1500:] +
+                                    res.get('log', '')[-1500:])
+        case['api'] = [d, spec['name']]
+    else:
+        case['so'] = cc.build_so(ctx.tmp, c_source(case), name + '.so')
+
+
+def cdef_text(case):
+    cdef = []
+    for j, s in enumerate(case['structs']):
+        tn = '%s s%d' % (s.get('top', 'struct'), j)
+        cdef.append(decl(s, j))
+        if case.get('cls', 'c') == 'c':
+            rt = 'unsigned long long' if not s['signed'] else 'long long'
+            cdef.append('%s get_%d(%s *p);' % (rt, j, tn))
+            cdef.append('void set_%d(%s *p, long long v);' % (j, tn))
+            cdef.append('size_t size_%d(void);' % j)
+    return '\n'.join(cdef)
+
+
 def child_setup(setup, wd):
-    return {}
+    return {'wd': wd, 'nmod': 0}
+
+
+def _open(st, case):
+    """(ffi, lib) for the case's declarations through the case's entry point"""
+    import sys, importlib
+    from cffi import FFI
+    via = case.get('via', 'inline')
+    if via == 'api':
+        d, name = case['api']
+        if d not in sys.path:
+            sys.path.insert(0, d)
+        mod = importlib.import_module(name)
+        return mod.ffi, mod.lib
+    ffi = FFI()
+    kw = {}
+    if case.get('cls') == 'packed':
+        kw = {'packed': True} if case['pack'] == 1 else {'pack': case['pack']}
+    ffi.cdef(cdef_text(case), **kw)
+    if via == 'abi':
+        st['nmod'] += 1
+        name = '_c02_abi_%d_%d' % (os.getpid(), st['nmod'])
+        os.makedirs(st['wd'], exist_ok=True)
+        ffi.set_source(name, None)
+        ffi.emit_python_code(os.path.join(st['wd'], name + '.py'))
+        if st['wd'] not in sys.path:
+            sys.path.insert(0, st['wd'])
+        ffi = importlib.import_module(name).ffi
+    lib = ffi.dlopen(case['so']) if case.get('so') else None
+    return ffi, lib
 
 
 # ---------------------------------------------------------------------------
@@ -343,36 +432,24 @@ def _list_init(ctype, path, v):
 
 def child_case(st, case):
     import random
-    from cffi import FFI
-    ffi = FFI()
     packed = case.get('cls') == 'packed'
     structs = case['structs']
-    if packed:
-        text = '\n'.join(decl(s, j) for j, s in enumerate(structs))
-        if case['pack'] == 1:
-            ffi.cdef(text, packed=True)
-        else:
-            ffi.cdef(text, pack=case['pack'])
-        lib = None
-    else:
-        cdef = []
-        for j, s in enumerate(structs):
-            tn = '%s s%d' % (s.get('top', 'struct'), j)
-            cdef.append(decl(s, j))
-            rt = 'unsigned long long' if not s['signed'] else 'long long'
-            cdef.append('%s get_%d(%s *p);' % (rt, j, tn))
-            cdef.append('void set_%d(%s *p, long long v);' % (j, tn))
-            cdef.append('size_t size_%d(void);' % j)
-        ffi.cdef('\n'.join(cdef))
-        lib = ffi.dlopen(case['so'])
+    ffi, lib = _open(st, case)
     bad = []
+    done = []
     n = 0
     stats = {'accepted': 0, 'rejected': 0, 'c_reads': 0}
 
     def stat(name, k=1):
         stats[name] = stats.get(name, 0) + k
 
+    via = case.get('via', 'inline')
+    prefix = ['']
+
     def report(mech, msg, j, v):
+        if prefix[0]:
+            # one root cause (position computed for the flattened members): one key
+            mech = prefix[0] + ('field-position' if mech in POSITION_MECHS else mech)
         if len(bad) < 30 or mech not in [b[0] for b in bad]:
             bad.append([mech, msg, j, v])
 
@@ -382,6 +459,11 @@ def child_case(st, case):
         path = s.get('path', 'f').split('.')
         lo, hi = field_range(T, signed, w)
         tn = '%s s%d' % (s.get('top', 'struct'), j)
+        # classifier prefix of the input classes that have their own code path: an API
+        # module flattens the members of anonymous nested structs/unions (recompiler)
+        prefix[0] = 'api-anon:' if via == 'api' and kind in ('anon_struct', 'anon_union') else ''
+        tag = '%s%s[%s] %s' % ('' if via == 'inline' else via + ' module: ', kind, decl(s, j),
+                               '.'.join(path))
         try:
             ctype = ffi.typeof(tn)
             size = ffi.sizeof(tn)
@@ -390,8 +472,13 @@ def child_case(st, case):
                 stat('packed_not_implemented')
                 continue
             raise
+        except (TypeError, ffi.error) as e:
+            if packed:
+                raise
+            # gcc compiled this declaration; cffi refuses to build the type
+            report('type-rejected', '%s: %s: %s' % (tag, type(e).__name__, str(e)[:300]), j, None)
+            continue
         flex = bool(s.get('flex'))
-        tag = '%s[%s] %s' % (kind, decl(s, j), '.'.join(path))
         getter = setter = None
         if not packed:
             if size != getattr(lib, 'size_%d' % j)():
@@ -429,7 +516,12 @@ def child_case(st, case):
                 report('field-bits-beyond-struct', '%s: field bits [%d,%d) but sizeof is %d' %
                        (tag, bitpos, bitpos + w, size), j, None)
                 continue
-            if fld.offset + ffi.sizeof(fld.type) > size:
+            # (any bitfield member: the positional initializer also stores 'pad')
+            beyond = any(m.bitsize > 0 and m.offset + ffi.sizeof(m.type) > size
+                         for _, m in ctype.fields)
+            if beyond != (case.get('part') == 'beyond'):
+                continue
+            if beyond:
                 stat('packed_unit_beyond_struct')
             mask = (((1 << w) - 1) << bitpos).to_bytes(size, 'little')
         else:
@@ -442,6 +534,12 @@ def child_case(st, case):
             report('harness', 'C mask has %d bits, width %d: %s' % (maskbits, w, tag), j, None)
             continue
         stat('kind_' + kind)
+        stat('via_' + via)
+        done.append(j)
+        if via == 'api':
+            stat('api_kind_' + kind)
+        linit_ok = not (flex or kind == 'anon_union' or _list_init(ctype, path, 0) is None)
+        maskint = int.from_bytes(mask, 'little')
 
         def cread(q, image):
             """the value C code reads from the field in `image` (bytes of the struct)"""
@@ -466,18 +564,13 @@ def child_case(st, case):
             rnd = random.Random('%d/%s/%d' % (case['seed'], s.get('key', ''), v))
             mode = 'ptr' if rnd.random() < 0.4 else rnd.choice(MODES)
             sname = 'own' if rnd.random() < 0.5 else rnd.choice(SITES)
-            if os.environ.get('C02_AUDIT_BASELINE'):   # AUDIT-TEMP
-                mode, sname = 'ptr', 'own'
             if sname not in sites:
                 sname = 'own'
-            if mode == 'new-list' and (flex or kind == 'anon_union' or
-                                       _list_init(ctype, path, 0) is None):
+            if mode == 'new-list' and not linit_ok:
                 mode = 'new-dict'
             fresh = mode.startswith('new-')
             vv = v
             z = rnd.random()
-            if os.environ.get('C02_AUDIT_BASELINE'):   # AUDIT-TEMP
-                z = 1
             if z < 0.04:
                 vv = _I(v)
                 stat('int_subclass_values')
@@ -513,7 +606,7 @@ def child_case(st, case):
                 q, wbuf, off = sites[sname]
                 tot = len(wbuf)
                 if rnd.random() < 0.8:
-                    total = bytes(rnd.getrandbits(8) for _ in range(tot))
+                    total = rnd.randbytes(tot)
                 else:
                     total = b'\xff' * tot if rnd.random() < 0.5 else b'\0' * tot
                 wbuf[:] = total
@@ -552,12 +645,11 @@ def child_case(st, case):
                 stats['c_reads'] += 1
                 if cgot != exp:
                     report(rdmech[0], '%s: wrote %d, C reads %r' % (what, v, cgot), j, v)
-                for i in range(size):
-                    if (after[i] ^ init[i]) & ~mask[i] & 0xff:
-                        report('outside-bits-changed', '%s: store of %d changed bits outside '
-                               'the field at byte %d: %02x -> %02x (mask %02x)' %
-                               (what, v, i, init[i], after[i], mask[i]), j, v)
-                        break
+                if (int.from_bytes(after, 'little') ^ int.from_bytes(init, 'little')) & ~maskint:
+                    i = [i for i in range(size) if (after[i] ^ init[i]) & ~mask[i] & 0xff][0]
+                    report('outside-bits-changed', '%s: store of %d changed bits outside '
+                           'the field at byte %d: %02x -> %02x (mask %02x)' %
+                           (what, v, i, init[i], after[i], mask[i]), j, v)
             else:
                 stats['rejected'] += 1
                 if res == 'ok':
@@ -582,18 +674,24 @@ def child_case(st, case):
                 report(rdmech[1], '%s: storage %s: cffi reads %r (%s), C reads %r' %
                        (tag, init.hex(), pv, rhow, cbefore), j, None)
         del keep
-    return {'n': n, 'bad': bad, 'stats': stats}
+    return {'n': n, 'bad': bad, 'stats': stats, 'done': done}
 
 
 def san_mechanism(case, key, block):
     # sanitizer reports of the packed class get their own classifier prefix
     if isinstance(case, dict) and case.get('cls') == 'packed':
+        if case.get('part') == 'beyond' and key.startswith('asan:heap-buffer-overflow@') and \
+                ('convert_to_object_bitfield' in block or 'convert_from_object_bitfield' in block):
+            # the access of the whole storage unit (sizeof(type) bytes at the field's
+            # offset) of a field whose unit extends past the end of the struct
+            return 'packed:storage-unit-beyond-struct'
         return 'packed:sanitizer:' + key
     return None
 
 
 def judge(ctx, setup, case, obs):
-    for s in case['structs']:
+    for j in obs.get('done', range(len(case['structs']))):
+        s = case['structs'][j]
         basic = s.get('kind', 'basic') == 'basic'
         for v in s['vals']:
             ctx.case((s.get('key') or (s['T'], s['w'], s['k']), v),
@@ -615,14 +713,14 @@ def judge(ctx, setup, case, obs):
             if v is not None:
                 s['vals'] = [v]
             rd = {'structs': [s], 'no': 0, 'seed': case['seed'], 'cls': case.get('cls', 'c'),
-                  'pack': case.get('pack')}
-        if mech == 'harness':
+                  'pack': case.get('pack'), 'via': case.get('via', 'inline'),
+                  'part': case.get('part')}
+        if mech.endswith('harness'):
             ctx.inconclusive(msg)
         else:
             ctx.violation(mech, msg, rd)
 
 
 def replay_setup(ctx, case):
-    if case.get('cls', 'c') == 'c':
-        case['so'] = cc.build_so(ctx.tmp, c_source(case), 'c02_replay.so')
+    _build_case(ctx, case, 'c02_replay')
     return None
